@@ -23,3 +23,19 @@ package dtls
 //@ ensures never-empty: result1 == nil ==> len(result0) > 0
 //@ ensures failure-returns-nothing: result1 != nil ==> result0 == nil
 //@ end
+
+// "The cipher suite ... fits the server's key type": with a certificate key, a certificate-authenticated suite is kept
+// only if its certificate type is the key's (ECDSA suites for ECDSA and Ed25519 keys, RSA suites for RSA keys).
+//@ assume-pure CipherSuite.CertificateType
+//@ define KEYIS(t) typeIs(retAny("Signer.Public", 0), t)
+//@ define ECKEY() (KEYIS("crypto/ed25519.PublicKey") || KEYIS("*crypto/ecdsa.PublicKey"))
+//@ define RSAKEY() KEYIS("*crypto/rsa.PublicKey")
+//@ define FITS(c) (!CERTAUTH(c) || ((ECKEY() ==> c.CertificateType() == clientcertificate.ECDSASign) && (RSAKEY() ==> c.CertificateType() == clientcertificate.RSASign)))
+//@ func filterCipherSuitesForCertificate
+//@ watch Signer.Public
+//@ ensures no-key-no-filter: cert == nil ==> sameSlice(result, cipherSuites)
+//@ ensures kept-suites-fit-the-key: called("Signer.Public") ==> forall(0, len(result), func(k int) bool { return FITS(result[k]) })
+//@ ensures filtered-is-a-new-list: called("Signer.Public") ==> len(result) <= len(cipherSuites)
+//@ loop #1: kept-fit: called("Signer.Public") && len(filtered) <= idx && forall(0, len(filtered), func(k int) bool { return FITS(filtered[k]) })
+//@ loop #1: key-type-decided: (ECKEY() ==> certType == clientcertificate.ECDSASign) && (RSAKEY() ==> certType == clientcertificate.RSASign)
+//@ end
